@@ -24,6 +24,8 @@ pub struct Script {
     /// client sockets of connections the server has ended, deliberately left open
     pub lingering: Vec<TcpStream>,
     pub last_served: Vec<usize>,
+    /// servers with an even limit sit on a store behind RandomPolicy with a small memory limit; its clock
+    pub policy_clock: Option<Arc<crate::sut::Clock>>,
 }
 
 fn noop(opaque: u32) -> Vec<u8> {
@@ -55,7 +57,7 @@ fn read_for(s: &mut TcpStream, ms: u64) -> (Vec<u8>, bool) {
 
 impl Script {
     pub fn new() -> Script {
-        Script { server: None, conns: BTreeMap::new(), timeout_ms: 1000, probe_id: 0, notes: vec![], stalled: Default::default(), lingering: vec![], last_served: vec![] }
+        Script { server: None, conns: BTreeMap::new(), timeout_ms: 1000, probe_id: 0, notes: vec![], stalled: Default::default(), lingering: vec![], last_served: vec![], policy_clock: None }
     }
 
     pub fn exec(&mut self, line: &str) -> String {
@@ -63,7 +65,16 @@ impl Script {
         match p.as_slice() {
             ["srv", limit, timeout] => {
                 let clock = Arc::new(crate::sut::Clock(std::sync::atomic::AtomicU64::new(0)));
-                let store: Arc<dyn Cache + Send + Sync> = Arc::new(MemoryStore::new(clock));
+                let lim: u32 = limit.parse().unwrap();
+                // every other server: behind the eviction policy with a memory limit that the connections' work reaches —
+                // a connection's slot comes back whatever the store had to do for it (evict, collect expired items)
+                let store: Arc<dyn Cache + Send + Sync> = if lim % 2 == 0 {
+                    self.policy_clock = Some(clock.clone());
+                    Arc::new(memcrs::memcache::random_policy::RandomPolicy::new(Arc::new(MemoryStore::new(clock)), 2000))
+                } else {
+                    self.policy_clock = None;
+                    Arc::new(MemoryStore::new(clock))
+                };
                 let t: u32 = timeout.parse().unwrap();
                 self.timeout_ms = t as u64 * 1000;
                 self.conns.clear();
@@ -147,7 +158,22 @@ impl Script {
                 self.stalled.remove(&i);
                 if let Some(mut s) = self.conns.remove(&i) {
                     match *how {
-                        "close" => {}
+                        "close" => {
+                            // before closing, an even-numbered connection of a policy-backed server works: an item with a
+                            // TTL, the clock passes its deadline, then stores that take the memory beyond its limit
+                            if let (Some(clock), true) = (&self.policy_clock, i % 2 == 0) {
+                                let mut b = wire::set_like(op::SET, format!("e{}", i).as_bytes(), &vec![b'e'; 100], 0, 1, 0, 1).bytes();
+                                let _ = s.write_all(&b);
+                                read_for(&mut s, 30);
+                                clock.0.fetch_add(5, std::sync::atomic::Ordering::SeqCst);
+                                b.clear();
+                                for j in 0..14 {
+                                    b.extend(wire::set_like(op::SET, format!("w{}_{}", i, j).as_bytes(), &vec![b'w'; 200], 0, 0, 0, 2 + j).bytes());
+                                }
+                                let _ = s.write_all(&b);
+                                read_for(&mut s, 60);
+                            }
+                        }
                         "quit" => {
                             let _ = s.write_all(&wire::bare(op::QUIT, 1).bytes());
                             read_for(&mut s, 250);
